@@ -51,11 +51,15 @@ func (k cliCase) key() string {
 	return string(b)
 }
 
-// fileName realises a name class for operand #i.
-func cliFileName(class string, i int) string {
+// fileName realises a name class for operand #i; v rotates through stems whose last characters
+// belong to the suffix's own character set ("linux.xz", "data.lzma", "text.txz"), contain dots,
+// or contain a known suffix in the middle - the target name must still be exactly the name
+// minus (or plus) the suffix.
+func cliFileName(class string, i int, v int) string {
+	pick := func(l ...string) string { return fmt.Sprintf(l[v%len(l)], i) }
 	switch class {
 	case "plain":
-		return fmt.Sprintf("f%d.txt", i)
+		return pick("f%d.txt", "f%d.txt", "archive.xz.%d.txt", "%d.lzma.bak", "noext%d")
 	case "space":
 		return fmt.Sprintf("my file %d.txt", i)
 	case "dash":
@@ -63,15 +67,15 @@ func cliFileName(class string, i int) string {
 	case "num":
 		return fmt.Sprintf("%d", i)
 	case "xz":
-		return fmt.Sprintf("a%d.xz", i)
+		return pick("a%d.xz", "%dlinux.xz", "quiz%dz.xz", "pkg.%d.tar.z.xz", "x%d.x.xz")
 	case "lzma":
-		return fmt.Sprintf("a%d.lzma", i)
+		return pick("a%d.lzma", "%ddata.lzma", "page%d.html.lzma", "%dmm.lzma", "l%d.z.lzma")
 	case "txz":
-		return fmt.Sprintf("b%d.txz", i)
+		return pick("b%d.txz", "%dtext.txz", "box%d.z.txz")
 	case "tlz":
-		return fmt.Sprintf("b%d.tlz", i)
+		return pick("b%d.tlz", "%dshell.tlz", "total%dt.tlz")
 	case "other":
-		return fmt.Sprintf("c%d.dat", i)
+		return pick("c%d.dat", "c%d.dat", "c%d.xz.dat", "c%dxz")
 	}
 	panic(class)
 }
@@ -259,7 +263,7 @@ func C15(c *hx.Ctx) {
 		var names []string
 		usedNames := map[string]bool{}
 		for i, f := range k.Files {
-			st := fstate{name: cliFileName(f.Name, i+1)}
+			st := fstate{name: cliFileName(f.Name, i+1, ci)}
 			plain := MakeData("text", 1500+37*i, c.Seed+int64(ci*7+i))
 			switch f.Content {
 			case "text":
